@@ -1284,10 +1284,10 @@ def separate_actions(statement_groups, rbql_expression):
     rbql_expression = rbql_expression.strip(' ')
     result = dict()
     # For now support no more than one query modifier per query
-    mobj = re.match('^(.*)  *[Ww][Ii][Tt][Hh] *\(([a-z]{4,20})\) *$', rbql_expression)
+    mobj = re.match('^(.*)  *[Ww][Ii][Tt][Hh] *\(([a-zA-Z]{4,20})\) *$', rbql_expression)
     if mobj is not None:
         rbql_expression = mobj.group(1)
-        result[WITH] = mobj.group(2)
+        result[WITH] = mobj.group(2).lower()
     ordered_statements = locate_statements(statement_groups, rbql_expression)
     for i in range(len(ordered_statements)):
         statement_start = ordered_statements[i][0]
